@@ -14,6 +14,7 @@ import (
 	"github.com/smart-core-os/sc-golang/pkg/resource"
 	"github.com/smart-core-os/sc-golang/pkg/trait/electricpb"
 	"github.com/smart-core-os/sc-golang/pkg/trait/lightpb"
+	"github.com/smart-core-os/sc-golang/pkg/trait/wastepb"
 )
 
 func lightSys() *sys {
@@ -84,8 +85,14 @@ func electricRestrictedSys() *sys {
 		return &traits.ElectricMode{Id: id, Title: "t" + id, Description: "the " + id + " mode", Normal: normal, Segments: []*traits.ElectricMode_Segment{{Magnitude: 1}}}
 	}
 	s.ops = []sop{
-		{name: "AddMode(x)", run: func(m *mon, _ context.Context) { a := mode("x", false); write(m, s, "AddMode(x)", a, func() { e.AddMode(a) }) }},
-		{name: "AddMode(n,normal)", run: func(m *mon, _ context.Context) { a := mode("n", true); write(m, s, "AddMode(n)", a, func() { e.AddMode(a) }) }},
+		{name: "AddMode(x)", run: func(m *mon, _ context.Context) {
+			a := mode("x", false)
+			write(m, s, "AddMode(x)", a, func() { e.AddMode(a) })
+		}},
+		{name: "AddMode(n,normal)", run: func(m *mon, _ context.Context) {
+			a := mode("n", true)
+			write(m, s, "AddMode(n)", a, func() { e.AddMode(a) })
+		}},
 		{name: "ChangeActiveMode(x)", run: func(m *mon, _ context.Context) {
 			if r, err := e.ChangeActiveMode("x"); err == nil {
 				m.reg("ChangeActiveMode result", r)
@@ -107,6 +114,49 @@ func electricRestrictedSys() *sys {
 			}
 		}},
 		{name: "ActiveMode()", readonly: true, run: func(m *mon, _ context.Context) { m.reg("ActiveMode()", e.ActiveMode()) }},
+	}
+	return s
+}
+
+// wasteSys: the waste model keeps a list of records next to a Value holding the latest one.
+func wasteSys() *sys {
+	model := wastepb.NewModel()
+	s := &sys{name: "wastepb.Model"}
+	s.state = func() []proto.Message {
+		var out []proto.Message
+		recs := model.ListWasteRecords(model.GetWasteRecordCount(), 3) // the three most recent (100 generated ones precede them)
+		for _, r := range recs {
+			out = append(out, proto.Clone(r))
+		}
+		return out
+	}
+	add := func(name string, build func() *traits.WasteRecord) sop {
+		return sop{name: name, run: func(m *mon, _ context.Context) {
+			arg := build()
+			write(m, s, name, arg, func() {
+				if r, err := model.AddWasteRecord(arg); err == nil {
+					m.reg(name+" result", r)
+				}
+			})
+		}}
+	}
+	s.ops = []sop{
+		add("AddWasteRecord(a)", func() *traits.WasteRecord { return &traits.WasteRecord{Id: "a", Weight: 3, Area: "north"} }),
+		add("AddWasteRecord(b)", func() *traits.WasteRecord { return &traits.WasteRecord{Id: "b", Weight: 5, System: "bins"} }),
+		{name: "ListWasteRecords()", readonly: true, run: func(m *mon, _ context.Context) {
+			recs := model.ListWasteRecords(model.GetWasteRecordCount(), 2)
+			for i, r := range recs {
+				m.reg(fmt.Sprintf("ListWasteRecords()[latest-%d]", i), r)
+			}
+		}},
+		{name: "PullWasteRecords()", readonly: true, run: func(m *mon, ctx context.Context) {
+			ch := model.PullWasteRecords(ctx, resource.WithBackpressure(true), resource.WithUpdatesOnly(true))
+			go func() {
+				for e := range ch {
+					m.reg("PullWasteRecords event", e.NewValue)
+				}
+			}()
+		}},
 	}
 	return s
 }
